@@ -821,20 +821,48 @@ func (f *Frugal) UnderlyingType(t *Type) *Type {
 	if t == nil {
 		panic("Attempted to get underlying type of nil type")
 	}
-	typedefIndex := f.typedefIndex
 	include := t.IncludeName()
 	if include != "" {
 		parsed, ok := f.ParsedIncludes[include]
 		if !ok {
 			return t
 		}
-		typedefIndex = parsed.typedefIndex
+		if typedef, ok := parsed.typedefIndex[t.ParamName()]; ok {
+			// The aliased type is written in the name space of the include:
+			// resolve nested typedefs there, then express the result from
+			// this file's point of view.
+			return qualifyType(parsed.UnderlyingType(typedef.Type), include)
+		}
+		return t
 	}
-	if typedef, ok := typedefIndex[t.ParamName()]; ok {
+	if typedef, ok := f.typedefIndex[t.ParamName()]; ok {
 		// Recursively call underlying type to handle typedef nesting.
 		return f.UnderlyingType(typedef.Type)
 	}
 	return t
+}
+
+// qualifyType returns t with every custom type name that has no include
+// prefix qualified with the given include name. Types are never modified in
+// place.
+func qualifyType(t *Type, include string) *Type {
+	if t == nil {
+		return nil
+	}
+	if t.IsPrimitive() {
+		return t
+	}
+	if t.IsContainer() {
+		key, value := qualifyType(t.KeyType, include), qualifyType(t.ValueType, include)
+		if key == t.KeyType && value == t.ValueType {
+			return t
+		}
+		return &Type{Name: t.Name, KeyType: key, ValueType: value, Annotations: t.Annotations}
+	}
+	if t.IncludeName() != "" {
+		return t
+	}
+	return &Type{Name: include + "." + t.Name, Annotations: t.Annotations}
 }
 
 // ConstantFromField returns a new Constant from the given Field and value.
